@@ -8,13 +8,14 @@ Open Scope Z_scope.
 Lemma ty_ind' (P : ty -> Prop)
   (HS : forall k, P (TS k)) (HV : P TVar) (HD : P TDV) (HA : forall t, P t -> P (TArr t))
   (HT : forall fs, Forall P fs -> P (TStruct fs))
-  (HE : forall w vals, P (TEnum w vals)) (HF : forall w b, P (TFlags w b)) :
+  (HE : forall w vals, P (TEnum w vals)) (HF : forall w b, P (TFlags w b))
+  (HG : forall w vals dflt, P (TEnumD w vals dflt)) :
   forall t, P t.
 Proof.
-  fix F 1. intros [k| | |t|fs|w vals|w b].
+  fix F 1. intros [k| | |t|fs|w vals|w b|w vals dflt].
   - apply HS. - exact HV. - exact HD. - apply HA, F.
   - apply HT. induction fs as [|f fs IH]; constructor; [apply F|exact IH].
-  - apply HE. - apply HF.
+  - apply HE. - apply HF. - apply HG.
 Qed.
 
 Definition ty_law (t : ty) : Prop := codec_ok (ty_codec t).
@@ -111,7 +112,7 @@ Qed.
 
 Theorem ty_codec_ok : forall t, codec_ok (ty_codec t).
 Proof.
-  induction t as [k| | |t IH|fs IH|w vals|w b] using ty_ind'; intros v Hv;
+  induction t as [k| | |t IH|fs IH|w vals|w b|w vals dflt] using ty_ind'; intros v Hv;
     unfold ty_codec in *; cbn [enc dec blen wf chk norm] in *.
   - destruct v as [s| | | | |]; try contradiction. cbn [wf_ty] in Hv.
     destruct (scalar_codec_ok k s Hv) as (L & B & D). cbn [scalar_codec enc dec blen wf chk norm] in *.
@@ -147,4 +148,9 @@ Proof.
     cbn [enc_ty len_ty dec_ty chk_ty norm_ty]. unfold enc_enum.
     split; [rewrite enc_i_length; reflexivity|]. split; [apply enc_i_bytes|].
     intros o d rest Ho. rewrite run_bind, run_read_i by assumption. rewrite run_ret, Hs. reflexivity.
+  - destruct v as [| | | | |z]; try contradiction. cbn [wf_ty] in Hv. destruct Hv as (Hin & Hw & H1 & Hn).
+    cbn [enc_ty len_ty dec_ty chk_ty norm_ty]. unfold enc_enum.
+    split; [rewrite enc_i_length; reflexivity|]. split; [apply enc_i_bytes|].
+    intros o d rest Ho. rewrite run_bind. fold (enc_enum w z). rewrite enum_law by assumption.
+    rewrite existsb_in by exact Hin. reflexivity.
 Qed.
